@@ -16,6 +16,7 @@ docstrings put in scope:
 """
 import contextlib
 import copy
+import math
 import re
 import signal
 import traceback
@@ -288,7 +289,10 @@ def scalar(rng, cimtype, sclass=None):
     if cimtype == 'char16':
         return 'char16', char16(rng)
     if cimtype in cimgen.REAL_TYPES:
-        return cimtype, cimgen.real_value(rng, cimtype, nonfinite=False)
+        while True:
+            v = cimgen.real_value(rng, cimtype, nonfinite=False)
+            if math.isfinite(v):    # MOF has no literal for inf/NaN
+                return cimtype, v
     return cimtype, cimgen.scalar(rng, cimtype)
 
 
@@ -390,14 +394,16 @@ def ref_value(rng, classname, tags=None):
     """An instance path whose keys are strings (with quotes, backslashes and
     apostrophes - they pass through WBEM-URI escaping and then through MOF
     escaping) and plain integers; URI defects of other key types are C07's
-    business."""
+    business.  No '=' in the strings: from_wbem_uri() reads a string key that
+    looks like 'Class.key=value' as a reference (documented ambiguity of the
+    untyped WBEM URI)."""
     kbs = []
     for kn in idents(rng, rng.choice([1, 1, 2, 3]), keywords=0):
         r = rng.random()
         if r < 0.6:
             n = rng.randint(0, 40)
             s = ''.join(rng.choice('"\'\\') if rng.random() < 0.15
-                        else rng.choice(LETTERS + ' .:/,=')
+                        else rng.choice(LETTERS + ' .:/,')
                         for _ in range(n))
             if tags is not None:
                 tags.append('refkey-string')
